@@ -104,8 +104,13 @@ class Runner:
                 rnd = random.Random(op["seed"])
                 evs = [_spec_event(Event, rnd.randrange(50), rnd.randrange(4), rnd.choice("abc")) for _ in range(op["n"])]
                 mine = ids[name]
+                used = set()
                 for u in range(min(op.get("upd", 0), len(mine))):
-                    evs.insert(rnd.randrange(len(evs) + 1), _spec_event(Event, rnd.randrange(50), 1, "u", mine[(op["seed"] + u * 7) % len(mine)]))
+                    eid = mine[(op["seed"] + u * 7) % len(mine)]
+                    if eid in used:  # an id appears at most once per bulk list
+                        continue
+                    used.add(eid)
+                    evs.insert(rnd.randrange(len(evs) + 1), _spec_event(Event, rnd.randrange(50), 1, "u", eid))
                 ds[name].insert(evs)
             elif kind in ("replace", "replace_last", "delete"):
                 mine = ids[name]
